@@ -34,8 +34,10 @@ RULE = (
     "copy/rename >=3 nodes; distinct = fingerprint of the case"
 )
 ASSUMPTIONS = [
-    "expanded nodes are either consumed (non-terminal) nodes or output-less sinks; every consumed output of an expanded node is mapped "
-    "to an existing output-less sink of the sub-graph (what the output map is documented to select)",
+    "expanded nodes are consumed (non-terminal) nodes, output-less sinks, or terminal nodes that declare outputs; every consumed output "
+    "of an expanded node (every declared output, for a terminal one) is mapped to an existing output-less sink of the sub-graph (what "
+    "the output map is documented to select); a selected output-less sink becomes a processor with the default output (splice_sink) "
+    "and, when the expanded node was terminal, stays a sink of the result",
     "leaves selected by an output map are terminal nodes of the sub-graph that are output-less or declare just the default output; "
     "unmapped inner sinks of a consumed expanded node are not required to survive",
     "the fusion callback used is denotation-preserving by construction; the check additionally demands the documented rule that a "
@@ -128,9 +130,11 @@ def cases(draw):
         for i, nd in enumerate(spec["nodes"]):
             outs = ["0"] if nd["outputs"] is None else nd["outputs"]
             terminal_with_outputs = bool(outs) and i not in cons
-            if terminal_with_outputs or draw(st.integers(0, 2)) != 0:
+            if draw(st.integers(0, 2)) != 0:
                 continue
-            consumed_outs = sorted(cons.get(i, set()))
+            # a terminal node that declares outputs (every fluent graph ends in such nodes) is expanded like a consumed one: its
+            # outputs are mapped to leaves of the sub-graph -- nobody consumes them, so they stay sinks of the result
+            consumed_outs = sorted(cons.get(i, set())) if not terminal_with_outputs else sorted(outs)
             style = draw(st.sampled_from(["maps", "none"]))
             if style == "none":
                 need = list(consumed_outs)  # sink names must equal the output names
@@ -441,20 +445,23 @@ def _check_expand(c, g, objs, spec, classes) -> bool:
         outs = ["0"] if nd["outputs"] is None else nd["outputs"]
         if e is None:
             exp_sinks[tuple(rden(i, o) for o in outs) if outs else rden(i, None)] += 1
-        else:  # expanded output-less sink: all the sub-graph's sinks become sinks of the result
+        else:  # expanded terminal node: nothing consumes it, so all the sub-graph's terminal nodes become sinks of the result
             ins_d = {k: rden(src, o) for k, (src, o) in nd["inputs"].items()}
+            omap = e["omap"] if e["omap"] is not None else {}
+            selected = {omap.get(o, o) for o in outs}  # leaves the node's declared outputs map to
             for j in sink_indices(e["sub"]):  # every terminal node of the sub-graph, with or without outputs
                 x = e["sub"]["nodes"][j]
                 xo = ["0"] if x["outputs"] is None else x["outputs"]
-                if not xo:
+                if not xo and x["name"] in selected:
+                    # an output-less sink selected by the output map is spliced into a processor with the default output
+                    exp_sinks[(sub_den(e, ins_d, x["name"], "0"),)] += 1
+                elif not xo:
                     exp_sinks[sub_den(e, ins_d, x["name"], None)] += 1
                 else:
                     exp_sinks[tuple(sub_den(e, ins_d, x["name"], o) for o in xo)] += 1
 
     out = _guard("expand_graph", lambda: expand_graph(expander, g))
     got = _sinks_den(out)
-    # a spliced sink gets a default output; compare modulo that for leaves promoted to sinks (cannot happen for result sinks: those
-    # are inner sinks, which stay output-less)
     if got != exp_sinks:
         raise Violation(f"expand_graph: sink denotations differ from the reference expansion ({len(exps)} expanded nodes); "
                         f"got-only={list((got - exp_sinks))[:1]} expected-only={list((exp_sinks - got))[:1]}", "expand-den")
